@@ -53,6 +53,13 @@ RankIn(ps, i) == Cardinality({j \in 1..i : ps[j].k = ps[i].k})
 SortedValues(ps) ==
     [i \in 1..Len(ps) |-> P(ps[i].k, SortSeq(ValsOf(ps, ps[i].k), <)[RankIn(ps, i)])]
 
+(* sorted(key=value of the item): list.sort is stable - pairs with equal values keep their order *)
+SortedByVal(ps) == LET before(i, j) == ps[i].v < ps[j].v \/ (ps[i].v = ps[j].v /\ i < j)
+                       order == SortSeq([i \in 1..Len(ps) |-> i], before)
+                   IN [i \in 1..Len(ps) |-> ps[order[i]]]
+SortedValuesRev(ps) ==
+    [i \in 1..Len(ps) |-> P(ps[i].k, Rev(SortSeq(ValsOf(ps, ps[i].k), <))[RankIn(ps, i)])]
+
 Comparable(ps) == \A i \in 1..Len(ps) : ps[i].k # 0 /\ ps[i].v # 0
 
 Ok(v)  == [e |-> "ok", v |-> v]
@@ -138,6 +145,9 @@ Obs(st, U) ==
     (* Python cannot order None: not judged (marker) when a None key or value is present *)
     sorted |-> IF Comparable(ps) THEN ItemsT(Sorted(ps)) ELSE << <<-1, -1>> >>,
     sortedvalues |-> IF Comparable(ps) THEN ItemsT(SortedValues(ps)) ELSE << <<-1, -1>> >>,
+    sorted_rev |-> IF Comparable(ps) THEN ItemsT(Rev(Sorted(ps))) ELSE << <<-1, -1>> >>,              \* sorted(reverse=True)
+    sorted_byval |-> IF Comparable(ps) THEN ItemsT(SortedByVal(ps)) ELSE << <<-1, -1>> >>,            \* sorted(key=lambda item: item[1])
+    sortedvalues_rev |-> IF Comparable(ps) THEN ItemsT(SortedValuesRev(ps)) ELSE << <<-1, -1>> >>,    \* sortedvalues(reverse=True)
     (* equality: with an OMD of the same pairs, the same pairs reordered, a mapping with the   *)
     (* same visible values, one differing value, a missing / an extra key, a non-mapping       *)
     (* ... and with OMDs that differ by one pair: one more pair of an existing key appended,   *)
